@@ -213,7 +213,7 @@ func Run(r *common.Run) error {
 		runSend(r, true, c.acked, c.bs, c.ops, "send-corpus")
 	}
 	nR := r.Pick(500, 8000)
-	for i := 0; i < nR && len(r.Failures) < 60; i++ {
+	for i := 0; i < nR && len(r.Failures) < 60 && r.Hist["problem"] < 25; i++ {
 		r.Mark("case recv-random %d", i)
 		mb, ops := randRecv(r.Rnd)
 		carrier := []string{"iq", "message"}[r.Rnd.Intn(2)]
@@ -223,7 +223,7 @@ func Run(r *common.Run) error {
 		runRecv(r, mb, carrier, ops, "recv-random")
 	}
 	nS := r.Pick(400, 6000)
-	for i := 0; i < nS && len(r.Failures) < 60; i++ {
+	for i := 0; i < nS && len(r.Failures) < 60 && r.Hist["problem"] < 25; i++ {
 		r.Mark("case send-random %d", i)
 		acked, bs, ops := randSend(r.Rnd, true)
 		runSend(r, true, acked, bs, ops, "send-random")
